@@ -228,13 +228,32 @@ class Interp:
                 v.name = f"{mod}.{name}"
                 v.fresh = False
                 v.shared = True  # module-level AST constant
-            if isinstance(v, Dct):
-                v.shared_name = f"{mod}.{name}"  # module-level dict: other code may have filled it
+            if isinstance(v, Dct) and self._module_dict_written(name):
+                v.shared_name = f"{mod}.{name}"  # module-level dict that code writes to: other calls may have filled it
         elif name in m.imports:
             v = self.import_value(m.imports[name])
         if v is not None:
             env.vars[name] = v
         return v
+
+    def _module_dict_written(self, name: str) -> bool:
+        """does any function of the package store into / mutate a container called `name` (bare or as module attribute)?"""
+        cache = self.prog.__dict__.setdefault("_dict_writers", {})
+        if name not in cache:
+            def is_it(e):
+                return (isinstance(e, ast.Name) and e.id == name) or (isinstance(e, ast.Attribute) and e.attr == name)
+            hit = False
+            for m in self.prog.modules.values():
+                for n in ast.walk(m.tree):
+                    if isinstance(n, (ast.Assign, ast.AugAssign, ast.Delete)):
+                        tg = n.targets if isinstance(n, (ast.Assign, ast.Delete)) else [n.target]
+                        if any(isinstance(t, ast.Subscript) and is_it(t.value) for t in tg):
+                            hit = True
+                    elif isinstance(n, ast.Call) and isinstance(n.func, ast.Attribute) and is_it(n.func.value) and n.func.attr in (
+                            "update", "setdefault", "pop", "popitem", "clear", "__setitem__"):
+                        hit = True
+            cache[name] = hit
+        return cache[name]
 
     def import_value(self, dotted: str) -> Val:
         r = self.prog.resolve(dotted)
